@@ -22,8 +22,12 @@ RULE = ("(a) canonicalisers: the real utils.canonicalize_* / count_non_zeros on 
         "trust / convexity spelling, trust-dominance-joint pairs in and out of range, list/tuple/single-tuple "
         "forms, bounds {none, lo<hi, lo=hi, lo>hi}, PWL cyclic x monotonicity x convexity x clamps x keypoints "
         "sorted/unsorted/short/duplicate, regulariser amounts scalar/list/tuple of right and wrong length, KFL, "
-        "Linear dominances incl. zero-width ranges, categorical pairs incl. out of range and cycles, CDF, RTL, "
-        "premade configs) run against the real constructor, build, kernel constraint on random dyadic weights, "
+        "Linear dominances incl. zero-width ranges, categorical pairs incl. out of range and cycles, CDF "
+        "(sparsity factor vs input dims / units, negative sizes, scaling type / monotonicity / initialiser / "
+        "activation / reduction spellings), RTL (sizes, bounds, interpolation, parameterization x initialiser x "
+        "regulariser forms tuple / list / list of lists with wrong arity, int amounts, unknown names, per-dimension "
+        "amounts, init_min / init_max, num_terms, too few lattices), premade configs and premade_lib.verify_config "
+        "on structured configs of all four model kinds with one-defect injection per check) run against the real constructor, build, kernel constraint on random dyadic weights, "
         "finalize, regulariser and first call: class must be ValueError-at-construction/build or accepted-and-"
         "finite; accept/reject class compared in Coq with Model/Verify.v behind the generated canonicalisers; "
         "a synonymously respelled twin must give the same class and identical outputs. Non-trivial = accepted "
@@ -36,7 +40,10 @@ TRUSTED = [
     "Model/Verify.v (hand-written accept/reject cores of the five verify_hyperparameters functions and the layer "
     "__init__/build checks around them) is tied by correspondence only, on the constructor classes "
     "LatticeConstraints, Lattice, LinearConstraints, Linear, PWLCalibration, PWLCalibrationConstraints, "
-    "CategoricalCalibration, KroneckerFactoredLattice",
+    "CategoricalCalibration, KroneckerFactoredLattice, RTL (rtl_lib.verify_hyperparameters + __init__ + build), "
+    "CDF (__init__ + build, and the call-time activation / reduction test), lattice_layer Laplacian / Torsion "
+    "regulariser objects, pwl_calibration_layer regulariser objects, premade_lib.verify_config (config objects "
+    "built from the description; the Coq case is rendered from the REAL config object's fields)",
 ]
 LIMITS = [
     "exceptions caused by Python typing (tuple + list, None[...], unhashable list) are invisible to the typed "
@@ -45,8 +52,16 @@ LIMITS = [
     "(thorough); coverage.exhaustive is set only when the stated sub-domains were enumerated completely",
     "accepted => projection/evaluation total and finite is tested on random dyadic weights and inputs, not proved "
     "(the division- and index-safety theorems of DESIGN section 7 (c) are not part of this check)",
-    "CDF, RTL, Aggregation, ParallelCombination, regularisers and premade verify_config have no Coq decision "
-    "model; only the outcome-class predicate is evaluated for them",
+    "Aggregation and ParallelCombination have no Coq decision model (outcome-class predicate only); the premade "
+    "model constructors are compared one-sidedly (what accepts_verify_config rejects they must reject; the layer "
+    "checks they make after verify_config are modelled per layer, not composed); premade_lib.verify_config itself, "
+    "RTL, CDF and the lattice / PWL regulariser objects are compared two-sidedly",
+    "RTL / CDF / verify_config glue: Keras initialiser names are a fixed list in Harness/H_C16.v "
+    "(keras_initializer_names), every other string counts as unknown; isinstance / np.iterable are evaluated on "
+    "the PyVal.v universe (a str is an iterable of str); RTL inputs are generated in the single-shape form "
+    "(None, n) per key; RTL configurations the library fails on with a non-ValueError (unknown dict key -> "
+    "KeyError, kernel_regularizer=[] -> IndexError, negative num_lattices x negative lattice_rank -> IndexError at "
+    "call) are modelled (reject / accept as is) but not generated",
 ]
 
 # ----------------------------------------------------------------------------
@@ -693,6 +708,9 @@ def run_desc(desc, kw=None):
   elif kind == "premade":
     r.do("construct", lambda: build_premade(tfl, kw))
     r.built()
+  elif kind == "verify_config":
+    r.do("construct", lambda: tfl.premade_lib.verify_config(make_config(tfl, kw)))
+    r.built()
   else:
     raise KeyError(kind)
   return r.finish()
@@ -709,28 +727,55 @@ def _as_list(x):
   return [x]
 
 
-def build_premade(tfl, kw):
-  """Builds a tfl.configs model config (+ premade model) from a JSON description."""
+def make_config(tfl, kw):
+  """A tfl.configs model config from a JSON description.  Sub-configs are
+  dicts: reflects_trust_in [{feature_name, trust_type, direction}], dominates
+  [{feature_name, dominance_type}], regularizer_configs [{name, l1, l2}]."""
   C = tfl.configs
+
+  def regs(rs):
+    return None if rs is None else [C.RegularizerConfig(**r) for r in rs]
   fcs = None
   if kw.get("features") is not None:
     fcs = []
     for f in kw["features"]:
       f = dict(f)
+      if f.get("reflects_trust_in") is not None:
+        f["reflects_trust_in"] = [C.TrustConfig(**t) for t in f["reflects_trust_in"]]
+      if f.get("dominates") is not None:
+        f["dominates"] = [C.DominanceConfig(**t) for t in f["dominates"]]
+      if "regularizer_configs" in f:
+        f["regularizer_configs"] = regs(f["regularizer_configs"])
       fcs.append(C.FeatureConfig(**f))
   common = dict(feature_configs=fcs, output_initialization=[0.0, 1.0])
   common.update(kw.get("model_kw", {}))
+  if "regularizer_configs" in common:
+    common["regularizer_configs"] = regs(common["regularizer_configs"])
   mk = kw["model"]
   if mk == "lattice":
-    cfg = C.CalibratedLatticeConfig(**common)
-    return tfl.premade.CalibratedLattice(cfg)
+    return C.CalibratedLatticeConfig(**common)
   if mk == "linear":
-    cfg = C.CalibratedLinearConfig(**common)
-    return tfl.premade.CalibratedLinear(cfg)
+    return C.CalibratedLinearConfig(**common)
+  if mk == "aggregate":
+    return C.AggregateFunctionConfig(**common)
   if mk == "ensemble":
     cfg = C.CalibratedLatticeEnsembleConfig(**common)
-    if cfg.lattices == "random" and isinstance(cfg.num_lattices, int) and isinstance(cfg.lattice_rank, int):
+    if (kw.get("expand", True) and cfg.lattices == "random" and isinstance(cfg.num_lattices, int) and
+        isinstance(cfg.lattice_rank, int)):
       tfl.premade_lib.set_random_lattice_ensemble(cfg)
+    return cfg
+  raise KeyError(mk)
+
+
+def build_premade(tfl, kw):
+  """Builds a tfl.configs model config (+ premade model) from a JSON description."""
+  cfg = make_config(tfl, kw)
+  mk = kw["model"]
+  if mk == "lattice":
+    return tfl.premade.CalibratedLattice(cfg)
+  if mk == "linear":
+    return tfl.premade.CalibratedLinear(cfg)
+  if mk == "ensemble":
     return tfl.premade.CalibratedLatticeEnsemble(cfg)
   raise KeyError(mk)
 
@@ -755,6 +800,7 @@ CTOR_NAME = {
     "ParallelCombination": "tfl.layers.ParallelCombination",
     "Aggregation": "tfl.layers.Aggregation",
     "premade": "tfl.premade/<configs>",
+    "verify_config": "tfl.premade_lib.verify_config/<configs>",
 }
 
 
@@ -1291,48 +1337,440 @@ def gen_pwl_reg(rng):
           "units": wchoice(rng, [(1, 1), (2, 1)]), "wseed": rng.randrange(10 ** 6)}
 
 
-def gen_cdf(rng):
-  kw = {"num_keypoints": wchoice(rng, [(1, 1), (2, 2), (5, 2), (0, 0.2)]),
-        "units": wchoice(rng, [(1, 2), (2, 2), (4, 1)]),
-        "activation": wchoice(rng, [("relu6", 4), ("sigmoid", 4), ("tanh", 0.5)]),
-        "reduction": wchoice(rng, [("mean", 4), ("geometric_mean", 3), ("none", 2), ("sum", 0.5)]),
+def gen_cdf(rng, force_valid=False):
+  valid = force_valid or rng.random() < 0.45
+
+  def iw(w):
+    return 0 if valid else w
+  # (a negative sparsity_factor with a negative units passes build and fails in call(): reported, not generated)
+  sf = wchoice(rng, [(1, 5), (2, 3), (3, 1), (0, iw(0.2))])
+  mult = max(abs(sf), 1)
+  units = wchoice(rng, [(mult, 3), (2 * mult, 2), (4, iw(1)), (1, iw(1)), (3, iw(0.5)), (0, iw(0.15)),
+                        (-2, iw(0.2)), (-1, iw(0.1))])
+  dims = wchoice(rng, [(mult, 3), (2 * mult, 2), (1, iw(1)), (2, iw(1)), (4, iw(0.7)), (3, iw(0.5))])
+  kw = {"num_keypoints": wchoice(rng, [(1, 1), (2, 2), (5, 2), (0, iw(0.2)), (-1, iw(0.2))]),
+        "units": units,
+        "activation": wchoice(rng, [("relu6", 4), ("sigmoid", 4), ("tanh", iw(0.5)), ("Relu6", iw(0.2))]),
+        "reduction": wchoice(rng, [("mean", 4), ("geometric_mean", 3), ("none", 2), ("sum", iw(0.5)),
+                                   ("Mean", iw(0.2))]),
         "input_scaling_type": wchoice(rng, [("fixed", 3), ("learned_shared", 3), ("learned_per_input", 3),
-                                             ("learned", 0.5)]),
+                                             ("learned", iw(0.5)), ("Fixed", iw(0.2))]),
         "input_scaling_monotonicity": wchoice(rng, [("increasing", 3), (1, 2), ("Increasing", 1), ("none", 2), (0, 1),
-                                                     ("decreasing", 0.5), ("up", 0.4), (None, 0.2)]),
-        "sparsity_factor": wchoice(rng, [(1, 5), (2, 3), (3, 1), (0, 0.2)])}
+                                                     ("decreasing", 0.5), (-1, 0.3), ("up", iw(0.4)), (2, iw(0.3)),
+                                                     (None, 0.2)]),
+        "sparsity_factor": sf}
   if rng.random() < 0.3:
     kw["input_scaling_init"] = rng.choice([2.0, 0.5, 1])
-  return {"kind": "CDF", "kw": kw, "dims": rng.choice([1, 2, 4]), "wseed": rng.randrange(10 ** 6)}
+  if rng.random() < 0.25:
+    kw["kernel_initializer"] = wchoice(rng, [("random_uniform", 3), ("RandomUniform", 1), ("zeros", 1),
+                                             ("uniform_random", iw(1)), ("linear_initializer", iw(0.5))])
+  return {"kind": "CDF", "kw": kw, "dims": dims, "wseed": rng.randrange(10 ** 6)}
 
 
-def gen_rtl(rng):
-  kw = {"num_lattices": wchoice(rng, [(1, 1), (2, 3), (3, 2), (0, 0.2)]),
-        "lattice_rank": wchoice(rng, [(1, 1), (2, 4), (3, 1), (0, 0.1)]),
-        "lattice_size": wchoice(rng, [(2, 6), (3, 2), (1, 0.5)])}
-  lo, hi = bounds_combo(rng)
+def inject_cdf_defect(rng, desc):
+  """Breaks exactly one rule of CDF.__init__ / build (or one of the two options
+  that only call() checks, finding D49)."""
+  kw = desc["kw"]
+  sf = kw["sparsity_factor"]
+  d = rng.choice(["dims_not_multiple", "units_not_multiple", "units_not_multiple", "keypoints_negative",
+                  "units_negative", "scaling_type", "mono_bad", "initializer", "activation", "reduction"])
+  desc["defect"] = d
+  if d == "dims_not_multiple":
+    kw["sparsity_factor"] = sf = max(sf, 2)
+    kw["units"] = sf * rng.choice([1, 2])
+    desc["dims"] = sf * rng.choice([1, 2]) + rng.randint(1, sf - 1)
+  elif d == "units_not_multiple":
+    kw["sparsity_factor"] = sf = max(sf, 2)
+    desc["dims"] = sf * rng.choice([1, 2])
+    kw["units"] = sf * rng.choice([0, 1, 2]) + rng.randint(1, sf - 1)
+  elif d == "keypoints_negative":
+    kw["num_keypoints"] = rng.choice([-1, -3])
+  elif d == "units_negative":
+    kw["units"] = -sf * rng.choice([1, 2])
+  elif d == "scaling_type":
+    kw["input_scaling_type"] = rng.choice(["learned", "Fixed", "per_input", "none"])
+  elif d == "mono_bad":
+    kw["input_scaling_monotonicity"] = rng.choice(["up", 2, "positive", -2, "convex"])
+  elif d == "initializer":
+    kw["kernel_initializer"] = rng.choice(["uniform_random", "linear_initializer", "foo"])
+  elif d == "activation":
+    kw["activation"] = rng.choice(["tanh", "Relu6", "relu", "SIGMOID"])
+  else:
+    kw["reduction"] = rng.choice(["sum", "Mean", "max", "None"])
+  return desc
+
+
+_RTL_LATTICE_INITS = ["random_monotonic_initializer", "linear_initializer", "LinearInitializer",
+                      "RandomMonotonicInitializer", "random_uniform_or_linear_initializer"]
+
+
+def gen_rtl(rng, force_valid=False):
+  valid = force_valid or rng.random() < 0.45
+
+  def iw(w):
+    return 0 if valid else w
+  inp = wchoice(rng, [({"unconstrained": rng.randint(1, 3), "increasing": rng.randint(1, 3)}, 5),
+                      ({"unconstrained": rng.randint(1, 4)}, 2), ({"increasing": rng.randint(1, 4)}, 2),
+                      (rng.randint(1, 4), 1)])
+  n_in = sum(inp.values()) if isinstance(inp, dict) else inp
+  rank = wchoice(rng, [(1, 1), (2, 4), (3, 1.5), (0, iw(0.1))])
+  need = -(-n_in // max(rank, 1))
+  num = wchoice(rng, [(need, 3), (need + 1, 2), (need + 2, 1), (max(need - 1, 0), iw(1.5)), (1, iw(0.7)),
+                      (0, iw(0.2))])
+  kw = {"num_lattices": num, "lattice_rank": rank,
+        "lattice_size": wchoice(rng, [(2, 6), (3, 2), (1, iw(0.5)), (0, iw(0.1))])}
+  lo, hi = bounds_combo(rng, valid)
+  kfl = rng.random() < 0.33
   if lo is not None:
     kw["output_min"] = lo
   if hi is not None:
     kw["output_max"] = hi
-  kw["interpolation"] = wchoice(rng, [("hypercube", 5), ("simplex", 3), ("linear", 0.4)])
-  kw["parameterization"] = wchoice(rng, [("all_vertices", 6), ("kronecker_factored", 3), ("factored", 0.4)])
-  kw["kernel_initializer"] = wchoice(rng, [("random_monotonic_initializer", 5), ("linear_initializer", 2),
-                                            ("random_uniform", 1)])
-  if kw["parameterization"] == "kronecker_factored" and rng.random() < 0.8:
-    kw["kernel_initializer"] = rng.choice(["kfl_random_monotonic_initializer", "random_uniform"])
-  if rng.random() < 0.25:
-    kw["kernel_regularizer"] = wchoice(rng, [(T("torsion", 0.1, 0.0), 2), (["laplacian", 0.1, 0.1], 2),
-                                             ([["torsion", 0.1, 0.0], ["laplacian", 0.5, 0.0]], 1),
-                                             (["torsion", 1, 0.0], 0.5), (["torsion", 0.1], 0.5)])
+  kw["interpolation"] = wchoice(rng, [("hypercube", 5), ("simplex", 3), ("linear", iw(0.3)), ("Simplex", iw(0.2))])
+  kw["parameterization"] = ("kronecker_factored" if kfl else
+                            wchoice(rng, [("all_vertices", 9), ("factored", iw(0.5)), ("All_vertices", iw(0.2))]))
+  if kfl:
+    kw["kernel_initializer"] = wchoice(rng, [("kfl_random_monotonic_initializer", 5), ("random_uniform", 2),
+                                             ("KFLRandomMonotonicInitializer", 1), ("linear_initializer", iw(0.6)),
+                                             ("random_monotonic_initializer", iw(0.5)), ("LinearInitializer", iw(0.3)),
+                                             ("foo", iw(0.3))])
+    kw["num_terms"] = wchoice(rng, [(1, 2), (2, 4), (3, 1), (-1, iw(0.4)), (0, iw(0.1))])
+  else:
+    kw["kernel_initializer"] = wchoice(rng, [(rng.choice(_RTL_LATTICE_INITS), 7), ("random_uniform", 1.5),
+                                             ("RandomUniformOrLinearInitializer", 0.5),
+                                             ("kfl_random_monotonic_initializer", iw(0.4)), ("foo", iw(0.3))])
+    if rng.random() < 0.15:
+      kw["num_terms"] = rng.choice([2, 0, -1])      # ignored by 'all_vertices'
+  ranged = (not kfl) and kw["kernel_initializer"] not in ("random_uniform", "foo", "kfl_random_monotonic_initializer")
+  if valid and ranged:
+    # default_init_params(output_min, output_max) must be a non-empty range
+    if lo is None and hi is not None and hi <= 0.0:
+      kw["output_max"] = hi = 0.5
+    if hi is None and lo is not None and lo >= 1.0:
+      kw["output_min"] = lo = 0.5
+  im = wchoice(rng, [("none", 8), ("both", 2), ("eq", iw(0.5) if ranged else 0.5), ("gt", iw(0.3) if ranged else 0.3),
+                     ("min_only", iw(0.4)), ("max_only", iw(0.4))])
+  a = rng.randint(-8, 8) / 4.0
+  if im == "both":
+    kw["init_min"], kw["init_max"] = a, a + rng.choice([0.5, 1.0])
+  elif im == "eq":
+    kw["init_min"], kw["init_max"] = a, a
+  elif im == "gt":
+    kw["init_min"], kw["init_max"] = a + 0.5, a
+  elif im == "min_only":
+    kw["init_min"] = a
+  elif im == "max_only":
+    kw["init_max"] = a
+  rk = max(rank, 1)
+  if rng.random() < (0.3 if not kfl else iw(0.25)):
+    kw["kernel_regularizer"] = wchoice(rng, [
+        (T("torsion", 0.1, 0.0), 2), (["laplacian", 0.1, 0.1], 2), (T("Laplacian", 1, 0.5), 1),
+        ([["torsion", 0.1, 0.0], ["laplacian", 0.5, 0.0]], 1), ([T("torsion", 0.1, 0.0), ["LAPLACIAN", 0.5, 0.25]], 1),
+        (T("laplacian", [0.25] * rk, 0.0), 1), (T("torsion", 0.0, T(*([0.5] * rk))), 1), (T("laplacian", [], 0.5), 0.3),
+        (["torsion", 1, 0.0], iw(0.5)), (["torsion", 0.5, 1], iw(0.5)), (["torsion", 0.1], iw(0.5)),
+        ([["torsion", 0.1, 0.0], ["laplacian", 0.5]], iw(0.4)), (["torsion", 0.1, 0.0, 0.0], iw(0.3)),
+        (["laplacian", [0.25] * rk, 0.0], iw(0.4)),
+        (T("torsion", 0.1), iw(0.4)), (T("torsion", 0.1, 0.1, 0.1), iw(0.3)), (T("l3", 0.1, 0.1), iw(0.4)),
+        (["wrinkle", 0.1, 0.1], iw(0.4)), (T("laplacian", [0.25] * (rk + 1), 0.0), iw(0.5)),
+        (T("torsion", 0.0, [0.5] * (rk + 1)), iw(0.4))])
   kw["separate_outputs"] = rng.random() < 0.3
   kw["average_outputs"] = rng.random() < 0.3
   kw["avoid_intragroup_interaction"] = rng.random() < 0.7
   kw["monotonic_at_every_step"] = rng.random() < 0.7
-  inp = wchoice(rng, [({"unconstrained": rng.randint(1, 3), "increasing": rng.randint(1, 3)}, 5),
-                      ({"unconstrained": rng.randint(1, 4)}, 2), ({"increasing": rng.randint(1, 4)}, 2),
-                      (rng.randint(1, 4), 1)])
   return {"kind": "RTL", "kw": kw, "input": inp, "wseed": rng.randrange(10 ** 6)}
+
+
+def inject_rtl_defect(rng, desc):
+  """Breaks exactly one rule of rtl_lib.verify_hyperparameters / RTL.build."""
+  kw = desc["kw"]
+  kfl = kw["parameterization"] == "kronecker_factored"
+  inp = desc["input"]
+  n_in = sum(inp.values()) if isinstance(inp, dict) else inp
+  opts = ["size", "bounds_eq", "bounds_gt", "interp", "too_small", "param", "init_pair", "init_unknown"]
+  if kfl:
+    opts += ["kfl_linear", "kfl_linear", "kfl_reg", "kfl_reg", "kfl_terms", "kfl_terms", "kfl_lattice_init"]
+  else:
+    opts += ["reg_list_len", "reg_list_l1_int", "reg_list_l2_int", "reg_list_amount_list", "reg_tuple_len",
+             "reg_name", "reg_amount_len", "init_range_empty", "init_range_default_empty", "lattice_kfl_init"]
+  d = rng.choice(opts)
+  desc["defect"] = d
+  rank = kw["lattice_rank"]
+  if d == "size":
+    kw["lattice_size"] = rng.choice([1, 1, 0, -1])
+  elif d in ("bounds_eq", "bounds_gt"):
+    kw["output_min"], kw["output_max"] = 0.5, (0.5 if d == "bounds_eq" else 0.25)
+  elif d == "interp":
+    kw["interpolation"] = rng.choice(["Hypercube", "cubic", "SIMPLEX", "linear"])
+  elif d == "too_small":
+    # num_lattices * lattice_rank = n_in - 1
+    if n_in == 1:
+      kw["num_lattices"] = 0
+    else:
+      kw["lattice_rank"] = 1
+      kw["num_lattices"] = n_in - 1
+      if isinstance(kw.get("kernel_regularizer"), dict) or kw.get("kernel_regularizer"):
+        kw.pop("kernel_regularizer", None)
+  elif d == "param":
+    kw["parameterization"] = rng.choice(["factored", "All_vertices", "kfl", "kronecker"])
+    kw.pop("kernel_regularizer", None)
+  elif d == "init_pair":
+    kw.pop("init_min", None)
+    kw.pop("init_max", None)
+    kw[rng.choice(["init_min", "init_max"])] = rng.choice([0.0, 0.5, 1.0])
+  elif d == "init_unknown":
+    kw["kernel_initializer"] = rng.choice(["foo", "uniform", "Linear_Initializer"])
+  elif d == "kfl_linear":
+    kw["kernel_initializer"] = "linear_initializer"
+  elif d == "kfl_reg":
+    kw["kernel_regularizer"] = rng.choice([T("torsion", 0.1, 0.0), ["laplacian", 0.1, 0.1], [["torsion", 0.1, 0.0]]])
+  elif d == "kfl_terms":
+    kw["num_terms"] = rng.choice([-1, -2])
+  elif d == "kfl_lattice_init":
+    kw["kernel_initializer"] = rng.choice(["random_monotonic_initializer", "LinearInitializer",
+                                           "RandomMonotonicInitializer"])
+  elif d == "reg_list_len":
+    kw["kernel_regularizer"] = rng.choice([["torsion", 0.1], ["torsion", 0.1, 0.0, 0.0], [["laplacian", 0.5]],
+                                           [["torsion", 0.1, 0.0], ["laplacian", 0.5]], ["torsion"]])
+  elif d == "reg_list_l1_int":
+    kw["kernel_regularizer"] = rng.choice([["torsion", 1, 0.0], [["laplacian", 0.5, 0.0], ["torsion", 0, 0.5]]])
+  elif d == "reg_list_l2_int":
+    kw["kernel_regularizer"] = rng.choice([["torsion", 0.5, 1], [["laplacian", 0.5, 0.0], T("torsion", 0.5, 0)]])
+  elif d == "reg_list_amount_list":
+    kw["kernel_regularizer"] = ["laplacian", [0.25] * rank, 0.0]
+  elif d == "reg_tuple_len":
+    kw["kernel_regularizer"] = rng.choice([T("torsion", 0.1), T("torsion", 0.1, 0.1, 0.1), T("laplacian")])
+  elif d == "reg_name":
+    kw["kernel_regularizer"] = rng.choice([T("l3", 0.1, 0.1), ["wrinkle", 0.1, 0.1], T("hessian", 0.5, 0.0),
+                                           [["torsion", 0.5, 0.0], ["l2", 0.5, 0.0]]])
+  elif d == "reg_amount_len":
+    bad = [0.25] * (rank + rng.choice([1, 2]))
+    if rank > 1 and rng.random() < 0.4:
+      bad = [0.25] * (rank - 1)
+    kw["kernel_regularizer"] = (T("laplacian", bad, 0.0) if rng.random() < 0.5 else T("torsion", 0.5, T(*bad)))
+  elif d == "init_range_empty":
+    kw["kernel_initializer"] = rng.choice(_RTL_LATTICE_INITS)
+    a = rng.randint(-4, 4) / 4.0
+    kw["init_min"], kw["init_max"] = a, a - rng.choice([0.0, 0.5])
+  elif d == "init_range_default_empty":
+    kw["kernel_initializer"] = rng.choice(_RTL_LATTICE_INITS)
+    kw.pop("init_min", None)
+    kw.pop("init_max", None)
+    kw.pop("output_min", None)
+    kw.pop("output_max", None)
+    if rng.random() < 0.5:
+      kw["output_max"] = rng.choice([0.0, -0.5, -2.0])
+    else:
+      kw["output_min"] = rng.choice([1.0, 1.5, 3.0])
+  elif d == "lattice_kfl_init":
+    kw["kernel_initializer"] = rng.choice(["kfl_random_monotonic_initializer", "KFLRandomMonotonicInitializer"])
+  return desc
+
+
+def _vc_feature(rng, name, iw):
+  f = {"name": name}
+  cat = rng.random() < 0.35
+  if cat:
+    nb = rng.choice([2, 3, 4])
+    f["num_buckets"] = nb
+    a, b = sorted(rng.sample(range(nb), 2))
+    f["monotonicity"] = wchoice(rng, [
+        (None, 2), ("none", 1), ([], 0.5), ([T(a, b)], 3), ([[a, b], T(b, a)], 1), ([T(a, b, 0)], 0.5), (T(T(a, b)), 0.5),
+        ([T(True, 0)], 0.3), ("None", iw(0.3)),
+        ([T(a, nb)], iw(1)), ([T(-1, b)], iw(1)), ([T(a, float(b))], iw(0.7)), ([T(a, b), nb - 1], iw(0.7)),
+        (5, iw(0.5)), ("increasing", iw(0.5)), ([T(a, "1")], iw(0.5)), ([T(a, None)], iw(0.3)), (1.5, iw(0.2)),
+        (["ab"], iw(0.2))])
+    if rng.random() < 0.3:
+      f["pwl_calibration_input_keypoints"] = rng.choice(["quantiles", [0.0, 1.0]])   # ignored for categorical
+  else:
+    if rng.random() < 0.15:
+      f["num_buckets"] = rng.choice([0, None])
+    f["pwl_calibration_input_keypoints"] = wchoice(rng, [
+        ([0.0, 1.0, 2.0], 4), ([0, 1, 2], 1), (T(0.0, 0.5), 1), ([0.0, True], 0.3), ([], 0.3),
+        ("quantiles", iw(1.5)), ("uniform", iw(0.5)), (None, iw(0.7)), ([0.0, "1.0"], iw(0.7)), ([0.0, None], iw(0.5)),
+        (3, iw(0.3)), ([[0.0, 1.0]], iw(0.3)), ("", 0.1)])
+    f["monotonicity"] = rng.choice(["none", "increasing", 0, 1, "decreasing"])
+  f["lattice_size"] = wchoice(rng, [(2, 6), (3, 1.2)])
+  if rng.random() < 0.12:
+    f["unimodality"] = rng.choice(["valley", "peak", 1, -1, "none", 0, False, "None"])
+  if rng.random() < 0.08:
+    f["reflects_trust_in"] = [{"feature_name": rng.choice(["a", "b", "zz"]), "trust_type": "edgeworth"}]
+  if rng.random() < 0.08:
+    f["dominates"] = wchoice(rng, [([{"feature_name": rng.choice(["a", "b", "zz"])}], 3), ([], 1)])
+  if rng.random() < 0.15:
+    f["regularizer_configs"] = wchoice(rng, [
+        ([{"name": "calib_wrinkle", "l2": 0.5}], 3), ([{"name": "calib_hessian", "l1": 0.5}, {"name": "torsion", "l2": 1.0}], 1),
+        ([{"name": "laplacian", "l1": 0.5}], 1.5), ([], 0.5), ([{"name": "Calib_wrinkle", "l2": 0.5}], 0.5)])
+  return f
+
+
+def gen_verify_config(rng, force_valid=False):
+  """A structured, mostly valid premade config for premade_lib.verify_config."""
+  valid = force_valid or rng.random() < 0.4
+
+  def iw(w):
+    return 0 if valid else w
+  model = wchoice(rng, [("lattice", 3), ("linear", 2), ("ensemble", 5), ("aggregate", 2)])
+  names = ["a", "b", "c", "d"][:wchoice(rng, [(1, 1), (2, 3), (3, 3), (4, 1)])]
+  feats = wchoice(rng, [([_vc_feature(rng, n, iw) for n in names], 20), (None, iw(1)), ([], 0.4)])
+  if feats and rng.random() < 0.05:
+    feats[-1]["name"] = feats[0]["name"]      # duplicate names: not checked by verify_config
+  mkw = {}
+  oi = wchoice(rng, [("default", 6), ([0.0, 0.5, 1.0], 2), (T(0, 1), 1), ([False, 2], 0.3), ([], 0.2),
+                     ("quantiles", iw(1)), ("uniform", iw(1)), (None, iw(0.5)), ([0.0, "1"], iw(0.5)), (2.0, iw(0.3)),
+                     ([0.0, None], iw(0.3)), ([[0.0, 1.0]], iw(0.2))])
+  if oi != "default":
+    mkw["output_initialization"] = oi
+  if model in ("lattice", "ensemble") and rng.random() < 0.3:
+    mkw["parameterization"] = wchoice(rng, [("kronecker_factored", 6), ("all_vertices", 2), ("Kronecker_factored", 0.5)])
+  if rng.random() < 0.2:
+    mkw["regularizer_configs"] = wchoice(rng, [
+        ([{"name": "calib_wrinkle", "l2": 0.5}], 3), ([{"name": "torsion", "l2": 0.5}], 2),
+        ([{"name": "calib_hessian", "l1": 0.5}, {"name": "laplacian", "l1": 1.0}], 1), ([], 0.5)])
+  desc_kw = {"model": model, "features": feats, "model_kw": mkw}
+  if model == "ensemble":
+    lat = wchoice(rng, [("rtl_layer", 5), ("list", 5), ("random_expanded", 1), ("random", iw(1)), ("crystals", iw(1)),
+                        ("word", iw(0.5)), ("short", iw(1)), ("nonstr", iw(1)), ("noniter", iw(0.7)),
+                        ("tuple", iw(0.6)), ("none", iw(0.3)), ("strings", 0.4), ("unknown", 0.5)])
+    if lat == "rtl_layer":
+      mkw["lattices"] = "rtl_layer"
+      mkw["num_lattices"] = wchoice(rng, [(2, 4), (3, 2), (None, iw(1)), (1, iw(1)), (0, iw(0.4))])
+      mkw["lattice_rank"] = rng.choice([1, 2])
+    elif lat == "list":
+      mkw["lattices"] = [rng.sample(names, rng.randint(1, len(names))) for _ in range(rng.choice([2, 2, 3]))]
+      if rng.random() < 0.3:
+        mkw["lattices"][0] = T(*mkw["lattices"][0])
+    elif lat == "random_expanded":
+      mkw.update(lattices="random", num_lattices=2, lattice_rank=min(2, len(names)))
+      desc_kw["expand"] = bool(feats)
+    elif lat in ("random", "crystals"):
+      mkw.update(lattices=lat, num_lattices=2, lattice_rank=1)
+      desc_kw["expand"] = False
+    elif lat == "word":
+      mkw["lattices"] = rng.choice(["crystal", "RTL_layer", "rtl", ""])
+    elif lat == "short":
+      mkw["lattices"] = rng.choice([[list(names)], []])
+    elif lat == "nonstr":
+      mkw["lattices"] = [list(names), rng.choice([[0, 1], ["a", 1], [None], [["a"]], T("a", 2.0)])]
+    elif lat == "noniter":
+      mkw["lattices"] = [list(names), rng.choice([3, None, 1.5, True])]
+    elif lat == "tuple":
+      mkw["lattices"] = T(list(names), list(names))
+    elif lat == "none":
+      mkw["lattices"] = None
+    elif lat == "strings":
+      mkw["lattices"] = [list(names), "ab"]           # a str is an iterable of str
+    else:
+      mkw["lattices"] = [list(names), ["a", "zzz"]]   # unknown feature: not checked by verify_config (D51)
+  if model == "aggregate":
+    mkw["middle_dimension"] = wchoice(rng, [(1, 3), (2, 3), (3, 1), (0, iw(1)), (-1, iw(0.4))])
+    mkw["middle_calibration"] = rng.random() < 0.5
+    mkw["middle_monotonicity"] = wchoice(rng, [(None, 4), ("increasing", 3 if mkw["middle_calibration"] else iw(2)),
+                                               (1, 1 if mkw["middle_calibration"] else iw(1)),
+                                               ("none", 0.5 if mkw["middle_calibration"] else iw(0.5))])
+  if valid and feats and (mkw.get("lattices") == "rtl_layer" or (
+      model in ("lattice", "ensemble") and mkw.get("parameterization") == "kronecker_factored")):
+    # RTL / KFL models: one lattice size, monotonicity and bounds only, calibration regularisers only
+    for f in feats:
+      f["lattice_size"] = feats[0]["lattice_size"]
+      for k in ("unimodality", "reflects_trust_in", "dominates"):
+        f.pop(k, None)
+      if any(not r["name"].startswith("calib_") for r in f.get("regularizer_configs") or []):
+        f["regularizer_configs"] = [{"name": "calib_wrinkle", "l2": 0.5}]
+    if mkw.get("parameterization") == "kronecker_factored" and any(
+        not r["name"].startswith("calib_") for r in mkw.get("regularizer_configs") or []):
+      mkw["regularizer_configs"] = [{"name": "calib_hessian", "l1": 0.5}]
+  return {"kind": "verify_config", "kw": desc_kw}
+
+
+def inject_vc_defect(rng, desc):
+  """Breaks exactly one rule of premade_lib.verify_config."""
+  kw = desc["kw"]
+  mkw = kw["model_kw"]
+  feats = kw["features"]
+  model = kw["model"]
+  rtl = mkw.get("lattices") == "rtl_layer"
+  kfl = model in ("lattice", "ensemble") and mkw.get("parameterization") == "kronecker_factored"
+  if not feats:
+    kw["features"] = feats = [{"name": "a", "pwl_calibration_input_keypoints": [0.0, 1.0]},
+                              {"name": "b", "pwl_calibration_input_keypoints": [0.0, 1.0]}]
+  opts = ["features_none", "output_init", "keypoints", "cat_not_iterable", "cat_elem", "cat_value_type",
+          "cat_value_range"]
+  if model == "ensemble":
+    opts += ["lattices_other", "lattices_short", "lattice_not_names"]
+  if rtl:
+    opts += ["num_lattices_none", "num_lattices_lt2", "rtl_feature_reg"] * 2
+  if rtl or kfl:
+    opts += ["sizes_differ", "unimodality", "trust", "dominance"] * 2
+  if kfl:
+    opts += ["kfl_model_reg", "kfl_feature_reg"] * 2
+  if model == "aggregate":
+    opts += ["middle_dim", "middle_mono"] * 3
+  d = rng.choice(opts)
+  desc["defect"] = d
+  f = rng.choice(feats)
+
+  def categorical(g):
+    g["num_buckets"] = 3
+    g.pop("pwl_calibration_input_keypoints", None)
+  if d == "features_none":
+    kw["features"] = None
+  elif d == "output_init":
+    mkw["output_initialization"] = rng.choice(["quantiles", "uniform", None, [0.0, "1"], 2.0, [0.0, None], [[0.0]]])
+  elif d == "keypoints":
+    f["num_buckets"] = rng.choice([0, None])
+    f["pwl_calibration_input_keypoints"] = rng.choice(["quantiles", "uniform", None, [0.0, "1.0"], [0.0, None], 3,
+                                                       [[0.0, 1.0]], [0.0, T(1.0)]])
+    if not isinstance(f.get("monotonicity"), (str, int)):
+      f["monotonicity"] = "none"
+  elif d == "cat_not_iterable":
+    categorical(f)
+    f["monotonicity"] = rng.choice([5, 1.5, True, -1])
+  elif d == "cat_elem":
+    categorical(f)
+    f["monotonicity"] = rng.choice([[T(0, 1), 2], [0, 1], [None], [T(0, 1), 1.5]])
+  elif d == "cat_value_type":
+    categorical(f)
+    f["monotonicity"] = rng.choice([[T(0, 1.0)], [T(0, "1")], [T(0, 1), T(None, 2)], ["ab"], "increasing", [T(0, T(1))]])
+  elif d == "cat_value_range":
+    categorical(f)
+    f["monotonicity"] = rng.choice([[T(0, 3)], [T(-1, 0)], [T(0, 1), T(1, 4)], [T(3, 0)], [[0, 1, 3]]])
+  elif d == "lattices_other":
+    mkw["lattices"] = rng.choice(["random", "crystals", "crystal", "RTL_layer", None, T(["a"], ["a"]), 3])
+    kw["expand"] = False
+  elif d == "lattices_short":
+    mkw["lattices"] = rng.choice([[["a"]], []])
+  elif d == "lattice_not_names":
+    mkw["lattices"] = [["a"], rng.choice([[0, 1], ["a", 1], [None], [["a"]], 3, None, 1.5, T("a", 2.0)])]
+  elif d == "num_lattices_none":
+    mkw["num_lattices"] = None
+  elif d == "num_lattices_lt2":
+    mkw["num_lattices"] = rng.choice([1, 0, -1])
+  elif d == "rtl_feature_reg" or d == "kfl_feature_reg":
+    f["regularizer_configs"] = rng.choice([[{"name": "torsion", "l2": 0.5}], [{"name": "calib_wrinkle", "l1": 0.5}, {"name": "laplacian", "l1": 0.5}],
+                                           [{"name": "Calib_wrinkle", "l2": 0.5}], [{"name": "calib", "l2": 0.5}]])
+  elif d == "kfl_model_reg":
+    mkw["regularizer_configs"] = rng.choice([[{"name": "torsion", "l2": 0.5}], [{"name": "calib_hessian", "l1": 0.5}, {"name": "laplacian", "l1": 0.5}]])
+  elif d == "sizes_differ":
+    if len(feats) < 2:
+      feats.append({"name": "zz", "pwl_calibration_input_keypoints": [0.0, 1.0]})
+    for g in feats:
+      g["lattice_size"] = 2
+    feats[rng.randrange(1, len(feats))]["lattice_size"] = 3
+    if rng.random() < 0.3:
+      for g in feats:
+        g["lattice_size"] = 3
+      feats[0]["lattice_size"] = 2
+  elif d == "unimodality":
+    f["unimodality"] = rng.choice(["valley", "peak", 1, -1, "None", "NONE", True])
+  elif d == "trust":
+    f["reflects_trust_in"] = rng.choice([[{"feature_name": "a", "trust_type": "edgeworth"}], []])
+  elif d == "dominance":
+    f["dominates"] = rng.choice([[{"feature_name": "a"}], []])
+  elif d == "middle_dim":
+    mkw["middle_dimension"] = rng.choice([0, -1])
+  elif d == "middle_mono":
+    mkw["middle_calibration"] = False
+    mkw["middle_monotonicity"] = rng.choice(["increasing", 1, "none", 0])
+  return desc
 
 
 def premade_descs():
@@ -1534,6 +1972,122 @@ def coq_kfl(desc, kw, obs):
   return "mk (CKfl %s) %s" % (raw, obs)
 
 
+def _numq(x):
+  if x is None:
+    return "None"
+  if isinstance(x, bool) or not isinstance(x, (int, float)):
+    raise NotExpressible()
+  return "(Some %s)" % cq(x)
+
+
+def _cv(p):
+  try:
+    return cval(p)
+  except (ValueError, AssertionError):
+    raise NotExpressible()
+
+
+def _int(x):
+  if not _is_int(x):
+    raise NotExpressible()
+  return cz(x)
+
+
+def coq_rtl(desc, kw, obs, run=None):
+  reg = kw.get("kernel_regularizer")
+  if isinstance(reg, str) or callable(reg):
+    raise NotExpressible()
+  shape = dec(desc["input"])
+  items = sorted(shape.items()) if isinstance(shape, dict) else [("unconstrained", shape)]
+  rows = ["(%s, %s)" % (_cv(k), _int(v)) for k, v in items]
+  raw = "(mkTR %s %s %s %s %s %s %s %s %s %s %s %s %s)" % (
+      _int(kw["num_lattices"]), _int(kw["lattice_rank"]), _int(kw.get("lattice_size", 2)),
+      _numq(kw.get("output_min")), _numq(kw.get("output_max")), _cv(kw.get("interpolation", "hypercube")),
+      _cv(kw.get("parameterization", "all_vertices")),
+      _cv(kw.get("kernel_initializer", "random_monotonic_initializer")), _cv(reg),
+      _numq(kw.get("init_min")), _numq(kw.get("init_max")), _int(kw.get("num_terms", 2)),
+      clist(rows) if rows else "(@nil (value * Z))")
+  return "mk (CRtl %s) %s" % (raw, obs)
+
+
+def coq_cdf(desc, kw, obs, run=None):
+  call_rejected = bool(run is not None and run.accepted and run.cls == "fail" and run.stage == "call" and
+                       run.exc == "ValueError" and ("Invalid activation" in (run.msg or "") or
+                                                    "Invalid reduction" in (run.msg or "")))
+  raw = "(mkDR %s %s %s %s %s %s %s %s %s)" % (
+      _int(kw["num_keypoints"]), _int(kw.get("units", 1)), _int(kw.get("sparsity_factor", 1)), _int(desc["dims"]),
+      _cv(kw.get("input_scaling_monotonicity", "increasing")), _cv(kw.get("kernel_initializer", "random_uniform")),
+      _cv(kw.get("input_scaling_type", "fixed")), _cv(kw.get("activation", "relu6")),
+      _cv(kw.get("reduction", "mean")))
+  return "mk (CCdf %s %s) %s" % (raw, cbool(call_rejected), obs)
+
+
+def coq_latreg(desc, kw, obs, run=None):
+  sizes = kw["lattice_sizes"]
+  if not all(_is_int(v) for v in sizes):
+    raise NotExpressible()
+  return "mk (CLatReg (mkGR %s %s %s)) %s" % (czl(list(sizes)), _cv(kw.get("l1", 0.0)), _cv(kw.get("l2", 0.0)), obs)
+
+
+def coq_pwlreg(desc, kw, obs, run=None):
+  return "mk (CPwlReg %s %s %s) %s" % (_cv(kw.get("l1", 0.0)), _cv(kw.get("l2", 0.0)),
+                                       cbool(bool(kw.get("is_cyclic", False))), obs)
+
+
+def _cstrl(names):
+  for n in names:
+    if not isinstance(n, str):
+      raise NotExpressible()
+  return clist([coq_string(n) for n in names]) if names else "(@nil string)"
+
+
+def coq_premade(desc, kw, obs, run=None):
+  """Reads the fields verify_config looks at from the REAL config object."""
+  _, tfl = tfimpl.tfl()
+  C = tfl.configs
+  try:
+    cfg = make_config(tfl, kw)
+  except Exception:  # pylint: disable=broad-except
+    raise NotExpressible()
+  kind = ("MEnsemble" if isinstance(cfg, C.CalibratedLatticeEnsembleConfig) else
+          "MLattice" if isinstance(cfg, C.CalibratedLatticeConfig) else
+          "MAggregate" if isinstance(cfg, C.AggregateFunctionConfig) else "MLinear")
+  if cfg.feature_configs is None:
+    feats = "None"
+  else:
+    rows = []
+    for fc in cfg.feature_configs:
+      rows.append("(mkFR %s %s %s %s %s %s %s %s)" % (
+          _cv(fc.num_buckets), _cv(_plain(fc.pwl_calibration_input_keypoints)), _cv(_plain(fc.monotonicity)),
+          _int(fc.lattice_size), _cv(fc.unimodality), cbool(fc.reflects_trust_in is not None),
+          cbool(fc.dominates is not None), _cstrl([r.name for r in (fc.regularizer_configs or [])])))
+    feats = "(Some %s)" % (clist(rows) if rows else "(@nil feature_raw)")
+  ens = kind == "MEnsemble"
+  nl = getattr(cfg, "num_lattices", None) if ens else None
+  raw = "(mkMR %s %s %s %s %s %s %s %s %s %s)" % (
+      kind, feats, _cv(_plain(cfg.lattices)) if ens else "VNone",
+      "None" if nl is None else "(Some %s)" % _int(nl),
+      _cv(getattr(cfg, "parameterization", None)), _cstrl([r.name for r in (cfg.regularizer_configs or [])]),
+      _int(getattr(cfg, "middle_dimension", 1)), cbool(getattr(cfg, "middle_monotonicity", None) is not None),
+      cbool(bool(getattr(cfg, "middle_calibration", False))), _cv(_plain(cfg.output_initialization)))
+  return "mk (%s %s) %s" % ("CVerifyConfig" if desc["kind"] == "verify_config" else "CPremadeCtor", raw, obs)
+
+
+def _plain(p):
+  """numpy strings / scalars (set_random_lattice_ensemble) as Python values."""
+  if isinstance(p, (list, tuple)):
+    return type(p)(_plain(x) for x in p)
+  if isinstance(p, np.str_):
+    return str(p)
+  return p
+
+
+COQ_RENDER_RUN = {
+    "RTL": coq_rtl, "CDF": coq_cdf, "LatticeLaplacian": coq_latreg, "LatticeTorsion": coq_latreg,
+    "PWLLaplacian": coq_pwlreg, "PWLHessian": coq_pwlreg, "PWLWrinkle": coq_pwlreg,
+    "verify_config": coq_premade, "premade": coq_premade,
+}
+
 COQ_RENDER = {
     "LatticeConstraints": coq_lattice, "Lattice": coq_lattice,
     "LinearConstraints": coq_linear, "Linear": coq_linear,
@@ -1575,7 +2129,7 @@ def pattern(name):
 QUOTA_QUICK = [("LatticeConstraints", 330), ("Lattice", 150), ("LinearConstraints", 200), ("Linear", 90),
                ("PWLCalibration", 170), ("PWLCalibrationConstraints", 70), ("CategoricalCalibration", 90),
                ("CategoricalCalibrationConstraints", 60), ("KroneckerFactoredLattice", 70),
-               ("LatticeReg", 90), ("PWLReg", 40), ("CDF", 50), ("RTL", 30)]
+               ("LatticeReg", 90), ("PWLReg", 40), ("CDF", 70), ("RTL", 60), ("verify_config", 220)]
 THOROUGH_FACTOR = 25
 
 
@@ -1912,11 +2466,14 @@ ONE_DEFECT = {
     "CategoricalCalibration": (lambda rng: gen_categorical(rng, True, True), inject_categorical_defect),
     "CategoricalCalibrationConstraints": (lambda rng: gen_categorical(rng, False, True), inject_categorical_defect),
     "KroneckerFactoredLattice": (lambda rng: gen_kfl(rng, True), inject_kfl_defect),
+    "RTL": (lambda rng: gen_rtl(rng, True), inject_rtl_defect),
+    "CDF": (lambda rng: gen_cdf(rng, True), inject_cdf_defect),
+    "verify_config": (lambda rng: gen_verify_config(rng, True), inject_vc_defect),
 }
 
 
 def gen_one(rng, kind):
-  if kind in ONE_DEFECT and rng.random() < 0.3:
+  if kind in ONE_DEFECT and rng.random() < (0.45 if kind == "verify_config" else 0.3):
     make, inject = ONE_DEFECT[kind]
     return inject(rng, make(rng))
   return gen_one_free(rng, kind)
@@ -1949,6 +2506,8 @@ def gen_one_free(rng, kind):
     return gen_cdf(rng)
   if kind == "RTL":
     return gen_rtl(rng)
+  if kind == "verify_config":
+    return gen_verify_config(rng)
   raise KeyError(kind)
 
 
@@ -2020,7 +2579,10 @@ def gen_descs(ctx):
   for kind, n in QUOTA_QUICK:
     for _ in range(n * f):
       out.append(gen_one(rng, kind))
-  out.extend(premade_descs())
+  pm = premade_descs()
+  out.extend(pm)
+  # the same configs through premade_lib.verify_config alone
+  out.extend({"kind": "verify_config", "tag": d["tag"], "kw": d["kw"]} for d in pm)
   out.extend(misc_descs())
   return out
 
@@ -2075,9 +2637,13 @@ def eval_constructor(desc):
           break
   coq = None
   render = COQ_RENDER.get(desc["kind"])
-  if render is not None and (run.cls == "rejected" or run.accepted) and not info.get("late"):
+  render_run = COQ_RENDER_RUN.get(desc["kind"])
+  if (render or render_run) is not None and (run.cls == "rejected" or run.accepted) and not info.get("late"):
     try:
-      coq = render(desc, kw, "Accepted" if run.accepted else "Rejected")
+      if render is not None:
+        coq = render(desc, kw, "Accepted" if run.accepted else "Rejected")
+      else:
+        coq = render_run(desc, kw, "Accepted" if run.accepted else "Rejected", run)
     except NotExpressible:
       coq = None
   klass = "%s:%s" % (desc["kind"], run.cls if run.cls != "fail" else "fail@" + str(run.stage))
